@@ -157,7 +157,13 @@ func mutate(r *gen.Rand, enc []byte) ([]byte, string) {
 	}
 }
 
+var boundaries = resp.Boundaries()
+
 func genCase(r *gen.Rand, i int) any {
+	if i < len(boundaries) { // deterministic: the same on every run and for every seed
+		b := boundaries[i]
+		return Case{Op: "mal", Input: b.Input, Mut: "boundary:" + b.Name, Buf: []int{32, 64, 4096}[i%3], Sizes: [][]int{nil, {1}, {3, 7}}}
+	}
 	buf := gen.Pick(r, bufSizes)
 	c := Case{Buf: buf, Sizes: genChunkings(r)}
 	k := r.Intn(20)
